@@ -44,3 +44,10 @@ package rootmulti
 //@   ensures [memory] rs.lastCommitID.Version == id.Version
 //@   ensures [durable] disk.latest == id.Version && disk.cinfo[id.Version] && subs.cur == id.Version
 //@   ensures [onlynew] forall v int :: v != id.Version ==> disk.cinfo[v] == old(disk.cinfo[v])
+
+// C12: an IAVL substore is loaded with exactly the multistore's pruning options.
+//@ func (rs *Store) loadCommitStoreFromParams(key types.StoreKey, id types.CommitID, params storeParams) (store types.CommitStore, err error)
+//@   props C12
+//@   may_panic
+//@   modifies mdb.size
+//@   ensures [policy] params.typ == 2 && err == nil ==> unbox(store, "*store/iavl.Store").numRecent == rs.pruningOpts.keepRecent && unbox(store, "*store/iavl.Store").storeEvery == rs.pruningOpts.keepEvery
